@@ -50,15 +50,18 @@ DefaultAlloc == 1
 (***************************************************************************)
 (* Elements.                                                               *)
 (***************************************************************************)
-NObjs(vs, k) == CASE P[k].k = "fixed" -> F[k] [] P[k].k = "varying" -> vs[k] [] OTHER -> 1
+(* fx = the FixedSize counts of the vector the element lives in (F when it was constructed with sizes, all 0 when *)
+(* it was default-constructed: no count was ever given)                                                     *)
+NObjs(fx, vs, k) == CASE P[k].k = "fixed" -> fx[k] [] P[k].k = "varying" -> vs[k] [] OTHER -> 1
+NoFixed == [k \in 1..Len(P) |-> 0]
 
 Val(t, salt, k, j) == ((t * 7 + salt * 13 + k * 5 + j * 3) % 250) + 1
 
-MkElem(t, salt, vs) ==
+MkElem(t, salt, vs, fx) ==
   [t |-> t,
    f |-> [k \in Idx |->
             IF P[k].k = "count" THEN <<vs[k + 1]>>
-            ELSE [j \in 1..NObjs(vs, k) |-> Val(t, salt, k, j)]]]
+            ELSE [j \in 1..NObjs(fx, vs, k) |-> Val(t, salt, k, j)]]]
 
 ElemVs(e) == [k \in Idx |-> IF P[k].k = "varying" THEN Len(e.f[k]) ELSE 0]
 
@@ -83,6 +86,12 @@ MovedFromElem(e) ==
 
 (***************************************************************************)
 (* State, type invariant.                                                  *)
+(* A vector record: st, cap, bud (declared varying payload bytes), elems,  *)
+(* al (allocator instance), fx (FixedSize counts) and the ghost dc ("was   *)
+(* default-constructed"): dc never influences an effect - a default-       *)
+(* constructed vector must behave like any other (C18) - it only keeps the *)
+(* generator from merging the two ways of reaching an empty vector, so     *)
+(* that every operation is also explored behind a default construction.    *)
 (***************************************************************************)
 VARIABLES vec, el, act
 
@@ -93,14 +102,15 @@ Live(S0, v)    == S0.vec[v].st = "live"
 Present(S0, v) == S0.vec[v].st \in {"live", "moved"}
 Size(S0, v)    == Len(S0.vec[v].elems)
 
-IsElem(e) == /\ DOMAIN e = {"t", "f"} /\ Len(e.f) = NP
-             /\ \A k \in Idx : Len(e.f[k]) = NObjs(ElemVs(e), k)
-             /\ \A k \in Idx : P[k].k = "count" => e.f[k][1] = Len(e.f[k + 1])
+IsElem(e, fx) ==
+  /\ DOMAIN e = {"t", "f"} /\ Len(e.f) = NP
+  /\ \A k \in Idx : Len(e.f[k]) = NObjs(fx, ElemVs(e), k)
+  /\ \A k \in Idx : P[k].k = "count" => e.f[k][1] = Len(e.f[k + 1])
 
 VecOK(r) == \/ r = Absent
             \/ /\ r.st \in {"live", "moved"}
                /\ r.cap \in Nat /\ r.bud \in Nat
-               /\ \A i \in 1..Len(r.elems) : IsElem(r.elems[i])
+               /\ \A i \in 1..Len(r.elems) : IsElem(r.elems[i], r.fx)
                /\ r.st = "moved" => r.elems = <<>>
 
 TypeOK == /\ \A v \in Vecs : VecOK(vec[v])
@@ -122,11 +132,11 @@ ParCap(par, dflt) == IF par.cap < 0 THEN dflt ELSE par.cap
 \* --- construction / destruction
 PreConstruct(S0, v, cap, bud, al) == S0.vec[v] = Absent /\ cap >= 0 /\ bud >= 0
 EffConstruct(S0, v, cap, bud, al) ==
-  SetVec(S0, v, [st |-> "live", cap |-> cap, bud |-> IF HasVarying THEN bud ELSE 0, elems |-> <<>>, al |-> al])
+  SetVec(S0, v, [st |-> "live", cap |-> cap, bud |-> IF HasVarying THEN bud ELSE 0, elems |-> <<>>, al |-> al, fx |-> F, dc |-> FALSE])
 
 PreDefaultConstruct(S0, v) == S0.vec[v] = Absent
 EffDefaultConstruct(S0, v) ==
-  SetVec(S0, v, [st |-> "live", cap |-> 0, bud |-> 0, elems |-> <<>>, al |-> DefaultAlloc])
+  SetVec(S0, v, [st |-> "live", cap |-> 0, bud |-> 0, elems |-> <<>>, al |-> DefaultAlloc, fx |-> NoFixed, dc |-> TRUE])
 
 PreDestroy(S0, v) == Present(S0, v)
 EffDestroy(S0, v) == SetVec(S0, v, Absent)
@@ -137,7 +147,7 @@ PreEmplace(S0, v, t, vs) ==
   /\ Size(S0, v) < S0.vec[v].cap                                  \* documented: size() < capacity()
   /\ Payload(S0.vec[v].elems) + VsPayload(vs) <= S0.vec[v].bud    \* documented: payload within the reserved bytes
 EffEmplace(S0, v, t, salt, vs) ==
-  [S0 EXCEPT !.vec[v].elems = Append(@, MkElem(t, salt, vs))]
+  [S0 EXCEPT !.vec[v].elems = Append(@, MkElem(t, salt, vs, S0.vec[v].fx))]
 
 PrePopBack(S0, v) == Live(S0, v) /\ Size(S0, v) > 0
 EffPopBack(S0, v) == [S0 EXCEPT !.vec[v].elems = SubSeq(@, 1, Len(@) - 1)]
@@ -163,7 +173,7 @@ EffCopyConstruct(S0, v, w, par) ==
       cap == ParCap(par, src.cap)
   IN  SetVec(S0, v, [st |-> "live", cap |-> cap,
                      bud |-> IF cap = src.cap THEN src.bud ELSE Payload(src.elems),
-                     elems |-> src.elems, al |-> Soccc(src.al)])
+                     elems |-> src.elems, al |-> Soccc(src.al), fx |-> src.fx, dc |-> src.dc])
 
 PreCopyAssign(S0, v, w) == Present(S0, v) /\ Live(S0, w)
 EffCopyAssign(S0, v, w, par) ==
@@ -172,10 +182,10 @@ EffCopyAssign(S0, v, w, par) ==
            cap == ParCap(par, src.cap)
        IN  SetVec(S0, v, [st |-> "live", cap |-> cap,
                           bud |-> IF cap = src.cap THEN src.bud ELSE Payload(src.elems),
-                          elems |-> src.elems,
+                          elems |-> src.elems, fx |-> src.fx, dc |-> src.dc,
                           al |-> IF POCCA THEN src.al ELSE S0.vec[v].al])
 
-MovedRec(al) == [st |-> "moved", cap |-> 0, bud |-> 0, elems |-> <<>>, al |-> al]
+MovedRec(al) == [st |-> "moved", cap |-> 0, bud |-> 0, elems |-> <<>>, al |-> al, fx |-> NoFixed, dc |-> FALSE]
 
 PreMoveConstruct(S0, v, w) == v # w /\ S0.vec[v] = Absent /\ Live(S0, w)
 EffMoveConstruct(S0, v, w) ==
@@ -188,7 +198,7 @@ EffMoveAssign(S0, v, w, par) ==
            cap == ParCap(par, src.cap)
        IN  [S0 EXCEPT !.vec[v] = [st |-> "live", cap |-> cap,
                                   bud |-> IF cap = src.cap THEN src.bud ELSE Payload(src.elems),
-                                  elems |-> src.elems,
+                                  elems |-> src.elems, fx |-> src.fx, dc |-> src.dc,
                                   al |-> IF POCMA THEN src.al ELSE S0.vec[v].al],
                       !.vec[w] = MovedRec(src.al)]
 
